@@ -49,23 +49,23 @@ package implements
 //@   assigns nothing
 //@   ensures tuple == nil ==> len(result) == 0
 //@   ensures tuple != nil ==> len(result) == tuple.Len()
-//@   loop 1 invariant len(result) == tuple.Len() && 0 <= i
+//@   loop 1 invariant len(result) == tuple.Len() && 0 <= $v
 //@ func extractMethodTypesFromTuple
 //@   props C10
 //@   nilable tuple
 //@   assigns nothing
 //@   ensures tuple == nil ==> len(result) == 0
 //@   ensures tuple != nil ==> len(result) == tuple.Len()
-//@   loop 1 invariant len(result) == tuple.Len() && 0 <= i
+//@   loop 1 invariant len(result) == tuple.Len() && 0 <= $v
 //@ func extractMethodsFromInterface
 //@   props C10
 //@   assigns nothing
-//@   loop 1 invariant 0 <= i
+//@   loop 1 invariant 0 <= $v
 //@ func extractMethodsFromNamedType
 //@   props C10
 //@   assigns nothing
 //@   ensures forall a int, b int :: 0 <= a && a < b && b < len(result) ==> result[a].Name != result[b].Name
-//@   loop 1 invariant 0 <= i && i <= methodSet.Len() && methodSet != nil && len(methods) == i
+//@   loop 1 invariant 0 <= $v && $v <= methodSet.Len() && methodSet != nil && len(methods) == $v
 //@   loop 1 invariant forall a int :: 0 <= a && a < len(methods) ==> methods[a].Name == methodSet.At(a).Obj().Name()
 //@ func isPointerReceiver
 //@   props C10
